@@ -50,7 +50,16 @@ func c12Docs(tier string) *TextSet {
 			}
 		}
 		for _, v := range Large().Vals {
-			if _, ok := v.(map[string]interface{}); ok {
+			if _, ok := v.(map[string]interface{}); ok && len(ref.JSON(v)) < 5000 {
+				docs = append(docs, v)
+			}
+		}
+		for _, depth := range []int{12, 40, 110} {
+			for _, leaf := range []V{map[string]interface{}{"x": nil, "y": 1.0}, map[string]interface{}{"x": 1.0, "z": 2.0}, map[string]interface{}{}} {
+				var v V = leaf
+				for i := 0; i < depth; i++ {
+					v = map[string]interface{}{"k": v}
+				}
 				docs = append(docs, v)
 			}
 		}
@@ -73,6 +82,19 @@ func init() {
 		},
 		Enum: func(tier string, e *engine.Emitter) {
 			d := c12Docs(tier)
+			// two patches in a row on the live result of the first (start from non-initial states)
+			small := thin(c12Docs(tier).Filter(func(v V) bool { return ref.Nodes(v) <= 3 }), 40)
+			objs := thin(c12Docs(tier).Filter(func(v V) bool {
+				_, ok := v.(map[string]interface{})
+				return ok && ref.Nodes(v) <= 4
+			}), 70)
+			for _, t := range small.Texts {
+				for _, p1 := range objs.Texts {
+					for _, p2 := range objs.Texts {
+						e.Emit(engine.Case{Kind: "c12seq", Leg: "two-patches", A: t, B: p1, C: p2})
+					}
+				}
+			}
 			pairs(e, "c12", "pairs", d, d)
 			if tier == "thorough" {
 				// deeper patch documents (6 nodes, objects only) against every target
@@ -88,7 +110,7 @@ func init() {
 			return []string{"object-patch", "non-object-patch", "null-member", "empty-object-member"}
 		},
 		Assume: []string{"RFC 7386 section 2 pseudocode transcribed in /verif/mc/ref"},
-		Budget: budget(4*time.Minute, 40*time.Minute),
+		Budget: budget(7*time.Minute, 40*time.Minute),
 	})
 }
 
@@ -107,7 +129,52 @@ func hasEmptyObjectMember(v V, top bool) bool {
 	return false
 }
 
+func runC12Seq(c *engine.Case) engine.Result {
+	tV, p1, p2 := ref.MustParse(c.A), ref.MustParse(c.B), ref.MustParse(c.C)
+	res := engine.Result{Traces: 1, Bucket: "two-patches", Nontrivial: true}
+	want := ref.MergePatch(ref.MergePatch(tV, p1), p2)
+	var fail string
+	p := impl.Guard(func() {
+		d1, err1 := jd.ReadMergeString(c.B)
+		d2, err2 := jd.ReadMergeString(c.C)
+		if err1 != nil || err2 != nil {
+			fail = fmt.Sprintf("ReadMergeString failed: %v %v", err1, err2)
+			return
+		}
+		n := impl.Read(c.A)
+		r1, err := n.Patch(d1)
+		res.Transitions++
+		if err != nil {
+			fail = "first Patch failed: " + err.Error()
+			return
+		}
+		r2, err := r1.Patch(d2) // on the live result, without re-reading it
+		res.Transitions++
+		if err != nil {
+			fail = "second Patch (on the result of the first) failed: " + err.Error()
+			return
+		}
+		got, perr := impl.ToV(r2)
+		if perr != nil || ref.IsVoid(got) || !ref.Equal(got, want, ref.List) {
+			fail = fmt.Sprintf("two merge patches in a row give %q, RFC 7386 gives %s", r2.Json(), ref.JSON(want))
+		}
+	})
+	if p != "" {
+		fail = "second patch on the live result of the first: " + p
+	}
+	// the pinned root-level behaviours (F-C12-1 / F-C12-2) are not this leg's subject
+	if fail != "" && (c.B == "null" || c.C == "null" || c.B == "{}" || c.C == "{}") && p == "" {
+		res.Bucket = "two-patches/no-verdict: root null or {} patch (F-C12-1/2)"
+		return res
+	}
+	res.Violation = fail
+	return res
+}
+
 func runC12(c *engine.Case) engine.Result {
+	if c.Kind == "c12seq" {
+		return runC12Seq(c)
+	}
 	tV, pV := ref.MustParse(c.A), ref.MustParse(c.B)
 	res := engine.Result{Traces: 1}
 	want := ref.MergePatch(tV, pV)
